@@ -122,7 +122,7 @@ def case_wellformed(ctx, spec):
 
 
 # ---- ill-formed classes ---------------------------------------------------------------------------
-ILL = ["trade_nan_price", "transact_nan_price", "trade_zero_price", "nan_price_open_position", "nan_coupon_open_position", "duplicate_columns", "zero_base_mv", "zero_base_fi", "fi_under_mv", "custom_price_no_bidoffer", "misaligned_rate_table"]
+ILL = ["trade_nan_price", "transact_nan_price", "trade_zero_price", "nan_price_open_position", "nan_coupon_open_position", "duplicate_columns", "zero_base_mv", "zero_base_fi", "fi_under_mv", "custom_price_no_bidoffer", "misaligned_rate_table", "custom_price_nan"]
 
 
 @st.composite
@@ -263,8 +263,8 @@ def _case_illformed(ctx, spec):
     else:
         root, spath = _tree(bt, spec)
         kw = {}
-        if spec["spread"] is not None and klass != "custom_price_no_bidoffer":
-            kw["bidoffer"] = data * spec["spread"]
+        if (spec["spread"] is not None and klass != "custom_price_no_bidoffer") or klass == "custom_price_nan":
+            kw["bidoffer"] = data * (spec["spread"] if spec["spread"] is not None else 0.0)
         root.setup(data, **kw)
     root.use_integer_positions(bool(spec["integer_positions"]))
     fee = interp.Fee(spec["fee"])
@@ -308,6 +308,16 @@ def _case_illformed(ctx, spec):
         cpx = pr[bad][0] * spec.get("custom_px", 1.01)
         must_raise(lambda: sec.transact(spec.get("custom_q", 5.0), price=cpx), "custom-price transact (price %r) without bid/offer data" % cpx, unchanged_root=root)
         return {"nontrivial": True, "labels": labs + (["custom_price_zero"] if cpx == 0 else [])}
+    if klass == "custom_price_nan":
+        # bid/offer tracking is on, so custom prices are allowed - but a missing one is a trade at a missing price
+        if spec.get("custom_flat"):
+            strat._create_child_if_needed(bad) if bad not in strat.children else None
+        else:
+            strat.allocate(abs(amt), child=bad)
+        root.update(idx[0])
+        sec = strat.children[bad]
+        must_raise(lambda: (sec.transact(spec.get("custom_q", 5.0), price=float("nan")), root.value), "transact at a custom price of NaN", unchanged_root=root)
+        return {"nontrivial": True, "labels": labs}
     if klass == "nan_price_open_position":
         strat.allocate(abs(amt), child=bad)
         root.update(idx[0])
